@@ -17,7 +17,7 @@ use crate::{
     engine_world::*,
     kit::{ExecCtx, Log, Outcome, RunStats, Sim, Violation, report, rng::Rng},
     sim_a::{Exp, M, OD, OpA, SnapSt, expect_op},
-    sim_b::{Req, decode},
+    sim_b::{Req, close_enough, decode, pnl_estimate},
     sim_client::*,
     sim_f::{Tick, diff_states},
     world::*,
@@ -36,6 +36,7 @@ use barter::{
     execution::{AccountStreamEvent, builder::ExecutionBuilder},
     system::builder::{AuditMode, EngineFeedMode, SystemBuild},
 };
+use barter::engine::state::instrument::data::InstrumentDataState;
 use barter_data::streams::consumer::MarketStreamEvent;
 use barter_execution::{
     AccountEventKind, UnindexedAccountEvent, UnindexedAccountSnapshot,
@@ -73,6 +74,7 @@ pub enum PropH {
     C10,
     C14,
     C09,
+    C15,
 }
 
 pub struct SimH {
@@ -676,6 +678,7 @@ impl Sim for SimH {
             PropH::C10 => "C10",
             PropH::C14 => "C14",
             PropH::C09 => "C09",
+            PropH::C15 => "C15",
         }
     }
     fn sub_batches(&self) -> Vec<&'static str> {
@@ -831,6 +834,14 @@ impl Sim for SimH {
         macro_rules! fail {
             ($l:lifetime, $rule:expr, $step:expr, $($arg:tt)*) => {{
                 violation = report(ctx, &mut stats, pid, $rule, $step, format!($($arg)*), None);
+                if violation.is_some() {
+                    break $l;
+                }
+            }};
+        }
+        macro_rules! fail_key {
+            ($l:lifetime, $rule:expr, $step:expr, $key:expr, $($arg:tt)*) => {{
+                violation = report(ctx, &mut stats, pid, $rule, $step, format!($($arg)*), $key);
                 if violation.is_some() {
                     break $l;
                 }
@@ -1589,6 +1600,80 @@ impl Sim for SimH {
                     }
                 }
             }
+            // ================================================================================
+            // C15: unrealised PnL follows the latest price / the fill price (on the replica)
+            // ================================================================================
+            if self.prop == PropH::C15 {
+                let queue: Rc<RefCell<VecDeque<Tick>>> = Rc::new(RefCell::new(VecDeque::new()));
+                let q2 = queue.clone();
+                let updates = std::iter::from_fn(move || q2.borrow_mut().pop_front());
+                let mut replica = StateReplicaManager::new(out.snapshot.clone(), updates);
+                for (k, t) in out.ticks.iter().enumerate() {
+                    let before = replica.replica_engine_state().clone();
+                    queue.borrow_mut().push_back(t.clone());
+                    let _ = replica.run::<u64, ExchangeId>();
+                    let EngineAudit::Process(pa) = &t.event else { continue };
+                    let after = replica.replica_engine_state();
+                    // which instrument does the event price / fill?
+                    let mut priced: Option<usize> = None;
+                    let mut filled: Option<(usize, rust_decimal::Decimal, bool)> = None;
+                    match &pa.event {
+                        EngineEvent::Market(MarketStreamEvent::Item(m)) => {
+                            if matches!(m.kind, barter_data::event::DataKind::Trade(_)) {
+                                priced = Some(m.instrument.0);
+                            }
+                        }
+                        EngineEvent::Account(AccountStreamEvent::Item(ev)) => {
+                            if let AccountEventKind::Trade(tr) = &ev.kind {
+                                filled = Some((tr.instrument.0, tr.price, !tr.fees.fees.is_zero()));
+                            }
+                        }
+                        _ => {}
+                    }
+                    for i in 0..w.n_inst() {
+                        let a = after.instruments.instrument_index(&InstrumentIndex(i));
+                        let b = before.instruments.instrument_index(&InstrumentIndex(i));
+                        let Some(pos) = &a.position.current else { continue };
+                        let est = |price: rust_decimal::Decimal| {
+                            pnl_estimate(pos.side, pos.price_entry_average, pos.quantity_abs, pos.quantity_abs_max, pos.fees_enter.fees, price)
+                        };
+                        if priced == Some(i) {
+                            let Some(price) = a.data.price() else { continue };
+                            stats.probe("priced_market_event_with_open_position");
+                            if a.data == b.data {
+                                stats.probe("late_market_event_ignored_by_data_guard");
+                            }
+                            if !close_enough(pos.pnl_unrealised, est(price)) {
+                                fail!('chk, "P1_pnl_not_refreshed_by_market_event", k, "after audit record {k}: instrument {i} price()={price}, position {{side {:?}, entry {}, qty {}, max {}, fees_enter {}}} pnl_unrealised={} but the estimate at the current price is {}", pos.side, pos.price_entry_average, pos.quantity_abs, pos.quantity_abs_max, pos.fees_enter.fees, pos.pnl_unrealised, est(price));
+                            }
+                        } else if let Some((fi, fill_price, with_fee)) = filled.filter(|f| f.0 == i) {
+                            let _ = fi;
+                            let opened = b.position.current.is_none() || b.position.current.as_ref().is_some_and(|p| p.side != pos.side);
+                            stats.probe("fill_with_position_after");
+                            if !close_enough(pos.pnl_unrealised, est(fill_price)) {
+                                let key = if opened && with_fee && pos.pnl_unrealised.is_zero() && close_enough(est(fill_price), -pos.fees_enter.fees) {
+                                    Some("C15-opening-fill-with-fee-leaves-pnl-unrealised-zero")
+                                } else {
+                                    None
+                                };
+                                fail_key!('chk, "P2_pnl_after_fill", k, key, "after audit record {k}: instrument {i} filled at {fill_price}: pnl_unrealised={} but the estimate at the fill price is {} (position opened by this fill: {opened})", pos.pnl_unrealised, est(fill_price));
+                            }
+                        } else {
+                            let prev = b.position.current.as_ref().map(|p| p.pnl_unrealised);
+                            if Some(pos.pnl_unrealised) != prev {
+                                fail!('chk, "P3_pnl_changed_without_cause", k, "after audit record {k}: an event about something else changed instrument {i}'s pnl_unrealised {:?} -> {}", prev, pos.pnl_unrealised);
+                            }
+                        }
+                    }
+                }
+                // the engine handed back holds the positions the replica holds
+                for i in 0..w.n_inst() {
+                    let idx = InstrumentIndex(i);
+                    if out.final_state.instruments.instrument_index(&idx).position != replica.replica_engine_state().instruments.instrument_index(&idx).position {
+                        fail!('chk, "P1_pnl_not_refreshed_by_market_event", out.ticks.len(), "final engine: position of instrument {i} differs from the replica of the audit stream");
+                    }
+                }
+            }
             let _ = out.algo_calls;
             break 'chk;
         }
@@ -1709,6 +1794,7 @@ impl Sim for SimH {
             PropH::C10 => vec!["replica_followed_whole_system_run"],
             PropH::C14 => vec!["market_link_healed", "account_link_healed", "account_stream_reconnected_by_real_manager"],
             PropH::C09 => vec!["late_balance_ignored", "late_public_trade_ignored", "late_order_report_ignored"],
+            PropH::C15 => vec!["priced_market_event_with_open_position", "fill_with_position_after", "late_market_event_ignored_by_data_guard"],
         });
         v
     }
